@@ -304,9 +304,17 @@ func runC15(t *testing.T, run *mc.Run) int {
 		}
 		// correlator failures: write failure at the k-th write, invalid login at every position
 		for k := 1; k <= len(evs)+1; k++ {
-			n++
-			if m := runStream(t, evs, stream, -1, "", k, ""); m != "" {
-				viol("write-failure", stream, fmt.Sprintf("output write #%d fails", k), m)
+			for ki, kind := range writeErrKinds {
+				if !run.Thorough() && ki != 0 && (shapeNo/faultEvery+k+ki)%3 != 0 {
+					continue // quick: the plain error always, the dressed-up ones in rotation
+				}
+				n++
+				writeErr = kind
+				m := runStream(t, evs, stream, -1, "", k, "")
+				writeErr = errInjected
+				if m != "" {
+					viol("write-failure", stream, fmt.Sprintf("output write #%d fails with %q", k, kind), m)
+				}
 			}
 		}
 		for pos := 0; pos <= len(stream); pos++ {
@@ -382,7 +390,7 @@ func runC15(t *testing.T, run *mc.Run) int {
 	})
 	run.Note("observation, not judged (the statement speaks of non-empty lines): a blank record delivered as \"\\n\": %s", short(blank, 160))
 	cov := mc.Coverage{Level: "model_checking", States: len(shapes), Transitions: n, Traces: n, Evaluations: n, Distinct: interleaved, Exhaustive: complete, Samples: samples,
-		Rule:  fmt.Sprintf("every merge of the record sequences of %d kernel events (5-record SYSCALL group, simple record, 4-record SYSCALL group ending in EOE) that keeps each event's internal order, x {no fault (every merge); for every merge (thorough) / every 25th merge (quick): each of 8 malformed line shapes at every position; output write failing at the k-th write for every k; 3 kinds of invalid login at every position}, delivered line by line to the real Auditd.Read in a synctest bubble ('does not return' = durably blocked). states = distinct stream shapes; distinct_nontrivial = shapes in which records of different kernel events interleave", nev),
+		Rule:  fmt.Sprintf("every merge of the record sequences of %d kernel events (5-record SYSCALL group, simple record, 4-record SYSCALL group ending in EOE) that keeps each event's internal order, x {no fault (every merge); for every merge (thorough) / every 25th merge (quick): each of 8 malformed line shapes at every position; output write failing at the k-th write for every k, with the plain error and with errors that also match context.Canceled / DeadlineExceeded / ErrClosedPipe / EOF / EPIPE; 3 kinds of invalid login at every position}, delivered line by line to the real Auditd.Read in a synctest bubble ('does not return' = durably blocked). states = distinct stream shapes; distinct_nontrivial = shapes in which records of different kernel events interleave", nev),
 		Extra: map[string]any{"kernel_events": nev, "stream_shapes": len(shapes), "malformed_shapes": len(malformed)}}
 	cov.Assumptions = []string{"testing/synctest durable-blocking semantics and virtual clock", "events are observed through the real tracker with the session bound, i.e. at the output writer"}
 	return run.Finish(cov)
